@@ -223,6 +223,9 @@ func build(c *Rec) ([]byte, []byte) {
 			kv{"unknown", "l" + bint(1) + "d1:q" + bint(2) + "ee"})
 	case 8: // the first tier is empty, the trackers are in the later ones
 		outer = append(outer, kv{"announce-list", "l" + "le" + list(trackers[:1]) + list(trackers[1:2]) + "e"})
+	case 10: // web seeds that cannot be used (not http) among usable ones
+		outer = append(outer, kv{"url-list", list([]string{"ftp://mirror.example/pub/", seeds[0], "not a url at all"})},
+			kv{"httpseeds", list([]string{"udp://seed.example:1/", hseeds[0]})})
 	case 9: // the first tier holds only a URL that cannot be parsed
 		outer = append(outer, kv{"announce-list", "l" + list([]string{"http://bad host/%zz"}) + list(trackers[:2]) + "e"})
 	}
@@ -244,6 +247,10 @@ func tiers(t *tor.Torrent) [][]string {
 func wseeds(t *tor.Torrent) []string {
 	var r []string
 	for _, ws := range t.Webseeds() {
+		if ws == nil {
+			r = append(r, "<nil web seed>")
+			continue
+		}
 		kind := "getright:"
 		if _, ok := ws.(*webseed.Hoffman); ok {
 			kind = "hoffman:"
@@ -417,7 +424,7 @@ func Handle(in []byte) any {
 		3: "[[" + trackers[0] + "] [" + trackers[1] + " " + trackers[2] + "]]", 4: "[]", 5: "[]",
 		6: "[[" + trackers[0] + " " + trackers[1] + "]]", 7: "[[" + trackers[1] + "]]",
 		// an empty tier, or one whose only URL cannot be parsed, keeps its place (and is empty)
-		8: "[[] [" + trackers[0] + "] [" + trackers[1] + "]]", 9: "[[] [" + trackers[0] + " " + trackers[1] + "]]"}[c.C.Outer]
+		8: "[[] [" + trackers[0] + "] [" + trackers[1] + "]]", 9: "[[] [" + trackers[0] + " " + trackers[1] + "]]", 10: "[]"}[c.C.Outer]
 	if fmt.Sprint(tiers(t)) != wantTiers {
 		viol("trackers-read", fmt.Sprintf("trackers read as %v, the file says %s", tiers(t), wantTiers))
 	}
